@@ -647,7 +647,7 @@ var _ = big.NewInt
 // enumNA enumerates small name-addr specs exhaustively for the same model-by-construction oracle: every display-name
 // form (none, token, two tokens, quoted string holding delimiters) x blank kinds before '<', bracketed URI with its own
 // parameters or bare URI, 0..2 header parameters out of {tag, expires, q, lr, quoted generic, value-less tag, re-cased
-// expires} with a blank in each of the four whitespace slots (one parameter) or in all / none (two parameters), for
+// expires, expiresx, qq} with a blank in each of the four whitespace slots (one parameter) or in all / none (two parameters), for
 // From / To / Contact / P-Asserted-Identity, direct and through ParseHeaders, two line ends, blanks after the colon and
 // before the line end, no / zero / small contact array; two-value headers over a representative subset with blanks
 // around the comma; Contact: *. allCuts: the "headers" entry is also fed under every single cut of the block.
@@ -667,6 +667,8 @@ func enumNA(allCuts bool, shard, nshards int, emit func(CaseNA) bool) {
 		{Name: B("x"), HasEq: true, Val: B("\"q,;<>\"")},
 		{Name: B("tag")},
 		{Name: B("Expires"), HasEq: true, Val: B("7")},
+		{Name: B("expiresx"), HasEq: true, Val: B("7200")},
+		{Name: B("qq"), HasEq: true, Val: B("0.9")},
 	}
 	wsv := []string{"", " "}
 	var plists [][]ParamSpec
